@@ -26,6 +26,11 @@ REPO = os.environ.get("VERIF_REPO", "/repo")
 NCPU = int(os.environ.get("VERIF_CPUS", str(os.cpu_count() or 4)))
 
 
+def short_blanks(text):
+    """a text on one line, long runs of blanks abbreviated (padded layouts)"""
+    return re.sub(r" {20,}", lambda m: "<%d blanks>" % len(m.group()), text.replace("\n", " "))
+
+
 class Infra(Exception):
     """An infrastructure failure: exit 2, never a verdict."""
 
